@@ -113,6 +113,29 @@ func (r *Run) buildAndSolve(fns []*ssa.Function) {
 						}
 					}
 				}
+				if fc := r.eng.contractOf(f); err == nil && fc != nil && len(fc.Loops) > 0 && vc.anyOpen() && os.Getenv("GOVC_NOLOOPSHIFT") == "" {
+					// a loop was inserted or removed before the loops that carry invariants: the same
+					// invariant sets, applied to the loops one or two positions further down (or up)
+					for _, d := range []int{1, -1, 2} {
+						vc2, err2 := r.eng.BuildVCShift(f, r.prop, d)
+						if err2 != nil {
+							continue
+						}
+						vc2.cross = vc.cross
+						vc2.Solve(r.dump, quickMs, raceS)
+						allUsed := true // a shift that leaves an invariant set without a loop would drop a claim
+						for k, cs := range fc.Loops {
+							if len(cs) > 0 && !vc2.loopSetsUsed[k] {
+								allUsed = false
+							}
+						}
+						if allUsed && !vc2.anyOpen() && !vc2.anyUnresolved() {
+							vc2.note("proved with the loop invariants of the contract applied to the loops %+d positions from the written ordinals (a loop was inserted or removed before them)", d)
+							vc = vc2
+							break
+						}
+					}
+				}
 			}
 			mu.Lock()
 			r.vcs = append(r.vcs, vc)
@@ -150,6 +173,16 @@ func (r *Run) buildAndSolve(fns []*ssa.Function) {
 func (vc *VC) anyOpen() bool {
 	for _, o := range vc.obls {
 		if !o.Cover && o.Status != "discharged" && o.Status != "unclaimed" {
+			return true
+		}
+	}
+	return false
+}
+
+// anyUnresolved: some clause of the contract could not be stated (an obligation named unresolved…).
+func (vc *VC) anyUnresolved() bool {
+	for _, o := range vc.obls {
+		if strings.Contains(o.Name, "/unresolved") {
 			return true
 		}
 	}
